@@ -129,69 +129,71 @@ class TraceFS:
         return TraceFile(self.files[url], self.log)
 
 
-_TRACE_CLS = None
+from fsspec.implementations.memory import MemoryFileSystem  # noqa: E402
+
+
+class _Wrapped:
+    def __init__(self, f, path, events):
+        self._f, self._path, self._events = f, path, events
+
+    def __enter__(self):
+        return self
+
+    def __exit__(self, *a):
+        self.close()
+
+    def seek(self, pos, whence=0):
+        r = self._f.seek(pos, whence)
+        self._events.append(["seek", self._path, r])
+        return r
+
+    def read(self, size=-1):
+        pos = self._f.tell()
+        out = self._f.read(size)
+        self._events.append(["read", self._path, pos, size, len(out)])
+        return out
+
+    def close(self):
+        self._events.append(["close", self._path])
+        return self._f.close()
+
+    def __getattr__(self, name):
+        return getattr(self._f, name)
+
+
+class TraceMemFS(MemoryFileSystem):
+    """A custom fsspec protocol `tracemem://`: an in-memory filesystem whose files log every seek / read."""
+    protocol = "tracemem"
+    events = []
+    store = {}
+    pseudo_dirs = [""]
+
+    @classmethod
+    def _strip_protocol(cls, path):
+        if isinstance(path, str) and path.startswith("tracemem://"):
+            path = "memory://" + path[len("tracemem://"):]
+        return super()._strip_protocol(path)
+
+    def unstrip_protocol(self, name):
+        return "tracemem://" + name
+
+    def _open(self, path, mode="rb", **kwargs):
+        f = super()._open(path, mode=mode, **kwargs)
+        if "r" not in mode:
+            return f
+        TraceMemFS.events.append(["open", path])
+        return _Wrapped(f, path, TraceMemFS.events)
+
+
+_REGISTERED = False
 
 
 def register_trace_protocol():
-    """A custom fsspec protocol `tracemem://` (memory filesystem whose files log seek/read)."""
-    global _TRACE_CLS
-    if _TRACE_CLS is not None:
-        return _TRACE_CLS
-    import fsspec
-    from fsspec.implementations.memory import MemoryFileSystem
-
-    class TraceMemFS(MemoryFileSystem):
-        protocol = "tracemem"
-        events = []
-        store = {}
-        pseudo_dirs = [""]
-
-        @classmethod
-        def _strip_protocol(cls, path):
-            if isinstance(path, str) and path.startswith("tracemem://"):
-                path = "memory://" + path[len("tracemem://"):]
-            return super()._strip_protocol(path)
-
-        def unstrip_protocol(self, name):
-            return "tracemem://" + name
-
-        def _open(self, path, mode="rb", **kwargs):
-            f = super()._open(path, mode=mode, **kwargs)
-            if "r" not in mode:
-                return f
-            TraceMemFS.events.append(["open", path])
-            return _Wrapped(f, path, TraceMemFS.events)
-
-    class _Wrapped:
-        def __init__(self, f, path, events):
-            self._f, self._path, self._events = f, path, events
-
-        def __enter__(self):
-            return self
-
-        def __exit__(self, *a):
-            self.close()
-
-        def seek(self, pos, whence=0):
-            r = self._f.seek(pos, whence)
-            self._events.append(["seek", self._path, r])
-            return r
-
-        def read(self, size=-1):
-            pos = self._f.tell()
-            out = self._f.read(size)
-            self._events.append(["read", self._path, pos, size, len(out)])
-            return out
-
-        def close(self):
-            self._events.append(["close", self._path])
-            return self._f.close()
-
-        def __getattr__(self, name):
-            return getattr(self._f, name)
-
-    fsspec.register_implementation("tracemem", TraceMemFS, clobber=True)
-    _TRACE_CLS = TraceMemFS
+    global _REGISTERED
+    if not _REGISTERED:
+        import fsspec
+        fsspec.register_implementation("tracemem", TraceMemFS, clobber=True)
+        _REGISTERED = True
     return TraceMemFS
 
 
